@@ -2920,7 +2920,12 @@ func (uconn *UConn) ApplyPreset(p *ClientHelloSpec) error {
 					if !preferredCurveIsSet {
 						// only do this once for the first non-grease curve
 						uconn.HandshakeState.State13.KeyShareKeys.Ecdhe = ecdheKey
+						uconn.HandshakeState.State13.KeyShareKeys.ExtraEcdhe = nil
 						preferredCurveIsSet = true
+					} else {
+						// keep the key of every further share: the server may select any of them
+						uconn.HandshakeState.State13.KeyShareKeys.ExtraEcdhe = append(
+							uconn.HandshakeState.State13.KeyShareKeys.ExtraEcdhe, ecdheKey)
 					}
 				}
 			}
